@@ -9,7 +9,7 @@ set_option linter.unusedSectionVars false
 
 namespace C08
 
-variable {α : Type}
+variable {α : Type} [DecidableEq α]
 
 /-- what holds of a `Rosomaxa` after any history in which `offered` was handed to it -/
 structure RInv (c : Cfg α) (offered : List α) (s : RState α) : Prop where
@@ -120,9 +120,6 @@ theorem RInv.updatePhase {c : Cfg α} (hsel : 1 ≤ c.selSize) (rc : RCfg) {offe
 section
 variable [DecidableEq α]
 
-/-- the specification instance for a `Rosomaxa` whose elite has configuration `c` -/
-def rosomaxaSpec (c : Cfg α) : Spec α := ⟨c.le, c.cap, decide (1 ≤ c.selSize), false, fun _ xs => xs⟩
-
 /-- assumption about the part of `select()` that comes from the GSOM nodes (C19's domain): nodes hold
     offered individuals only -/
 def tapeHyp : List α → Op α → Prop
@@ -135,6 +132,11 @@ theorem take_ne_nil {l : List α} {n : Nat} (hl : l ≠ []) (hn : 1 ≤ n) : l.t
   | cons a as =>
     obtain ⟨k, hk⟩ : ∃ k, n = k + 1 := ⟨n - 1, by omega⟩
     simp [hk]
+
+theorem head?_append_left {l l' : List α} (hl : l ≠ []) : (l ++ l').head? = l.head? := by
+  cases l with
+  | nil => exact absurd rfl hl
+  | cons a as => rfl
 
 theorem take_head? {l : List α} {n : Nat} (hn : 1 ≤ n) : (l.take n).head? = l.head? := by
   rw [List.head?_take, if_neg (by omega)]
@@ -182,7 +184,7 @@ theorem rosomaxa_select {c : Cfg α} (hsel : 1 ≤ c.selSize) {offered : List α
         have h1 := Elitism.select_ne_nil c s.elite t.picks hsel hne
         have h2 := Elitism.select_head? c s.elite t.picks hsel
         have h3 : (Elitism.select c s.elite t.picks).take (max t.k 1) ≠ [] := take_ne_nil h1 (by omega)
-        rw [take_head? hps, List.head?_append_of_ne_nil _ h3, take_head? (by omega), h2]
+        rw [take_head? hps, head?_append_left h3, take_head? (by omega), h2]
   | exploitation =>
     have hps : 1 ≤ s.phaseSel := h.sel (by simp [hph])
     dsimp only
@@ -193,6 +195,22 @@ theorem rosomaxa_select {c : Cfg α} (hsel : 1 ≤ c.selSize) {offered : List α
       right
       rw [take_head? hps, Elitism.select_head? c s.elite t.picks hsel]
 
+/-- `Rosomaxa::add_all` (and `add` = `add_all` of a singleton): invariant for the whole batch, return value, phase -/
+theorem RInv.addAll {c : Cfg α} (hp : TotalPreorder c.le) (hcap : 0 < c.cap)
+    (hfit : ∀ a b, c.fitEq a b = (c.le a b && c.le b a)) {offered : List α} {s : RState α}
+    (h : RInv c offered s) (xs : List α) :
+    RInv c (offered ++ xs) (Rosomaxa.addAll c s xs).1 ∧
+      (Rosomaxa.addAll c s xs).2 = improved c.le s.elite.inds.head? (Rosomaxa.addAll c s xs).1.elite.inds.head? ∧
+      (Rosomaxa.addAll c s xs).1.phase = s.phase := by
+  refine ⟨⟨h.elite.rosomaxaAddAll hp hcap xs, ?_, ?_⟩, ?_, rfl⟩
+  · intro hph
+    have hph' : s.phase = .initial := hph
+    simp only [Rosomaxa.addAll, hph']
+    rw [h.init hph']
+  · intro hph; exact h.sel hph
+  · simp only [Rosomaxa.addAll]
+    exact addAll_ret_improved hp hcap hfit s.elite _
+
 /-- **one step of Rosomaxa** (elite + phase machine): specification met, invariant kept -/
 theorem rosomaxa_step {c : Cfg α} (rc : RCfg) (hp : TotalPreorder c.le) (hcap : 0 < c.cap) (hsel : 1 ≤ c.selSize)
     (hfit : ∀ a b, c.fitEq a b = (c.le a b && c.le b a)) (offered : List α) (s : RState α) (op : Op α)
@@ -202,20 +220,7 @@ theorem rosomaxa_step {c : Cfg α} (rc : RCfg) (hp : TotalPreorder c.le) (hcap :
         ((rosomaxaM c rc).ranked s) ((rosomaxaM c rc).phase s) op ((rosomaxaM c rc).step s op).2 = true ∧
       RInv c (offered ++ (rosomaxaSpec c).offeredBy ((rosomaxaM c rc).ranked s).head? op)
         ((rosomaxaM c rc).step s op).1 := by
-  -- `add_all` (and `add` = `add_all` of a singleton)
-  have hadd : ∀ xs : List α,
-      RInv c (offered ++ xs) (Rosomaxa.addAll c s xs).1 ∧
-        (Rosomaxa.addAll c s xs).2 = improved c.le s.elite.inds.head? (Rosomaxa.addAll c s xs).1.elite.inds.head? ∧
-        (Rosomaxa.addAll c s xs).1.phase = s.phase := by
-    intro xs
-    refine ⟨⟨h.elite.rosomaxaAddAll hp hcap xs, ?_, ?_⟩, ?_, rfl⟩
-    · intro hph
-      have hph' : s.phase = .initial := hph
-      simp only [Rosomaxa.addAll, hph']
-      rw [h.init hph']
-    · intro hph; exact h.sel hph
-    · simp only [Rosomaxa.addAll]
-      exact addAll_ret_improved hp hcap hfit s.elite _
+  have hadd := fun xs => RInv.addAll hp hcap hfit h xs
   have hphase : ∀ o : Obs α, o.phase = s.phase → phaseOK ((rosomaxaM c rc).phase s) o = true := by
     intro o ho; simp [phaseOK, rosomaxaM, ho]
   cases op with
@@ -243,8 +248,7 @@ theorem rosomaxa_step {c : Cfg α} (rc : RCfg) (hp : TotalPreorder c.le) (hcap :
       ((rosomaxaM c rc).step s (.gen st)).2 rfl rfl
     refine stepOK_intro a1 a2 a3 a4 rfl ?_ rfl ?_
     · simp [frameOK, Machine.step, Machine.observe, rosomaxaM, updatePhase_elite]
-    · simp only [phaseOK, Machine.step, Machine.observe, rosomaxaM, decide_eq_true_eq]
-      exact updatePhase_rank c rc s st
+    · exact decide_eq_true (updatePhase_rank c rc s st)
   | select t =>
     have h' : RInv c (offered ++ []) s := by simpa using h
     refine ⟨?_, h'⟩
